@@ -159,3 +159,21 @@ Definition extra_releases (sites : list (list N * bool)) : option nat :=
 End Pool.
 
 Arguments Discarded {A}.
+
+(* the program of an instance (core/engine/instance.go Run): acquire; then shoot OR discard, once; then release *)
+Definition phase_step (ph : nat -> nat) (e : ev) : option (nat -> nat) :=
+  let set i x := fun j => if Nat.eqb j i then x else ph j in
+  match e with
+  | EDecode _ => Some ph
+  | EAcquire i => if Nat.eqb (ph i) 0 then Some (set i 1) else None
+  | EShoot i | EDiscard i => if Nat.eqb (ph i) 1 then Some (set i 2) else None
+  | ERelease i => if Nat.eqb (ph i) 2 then Some (set i 0) else None
+  end.
+
+Fixpoint disciplined_from (ph : nat -> nat) (evs : list ev) : bool :=
+  match evs with
+  | [] => true
+  | e :: evs' => match phase_step ph e with Some ph' => disciplined_from ph' evs' | None => false end
+  end.
+
+Definition disciplined (evs : list ev) : bool := disciplined_from (fun _ => 0) evs.
